@@ -22,14 +22,14 @@ TraceAdvance(t) ==
 Event(ev) ==
     CASE ev.ev = "Start" -> Start
       [] ev.ev = "Stop" -> Stop
-      [] ev.ev = "Emit" -> \E i \in Loops : Check(i) /\ Len(emitted') = Len(emitted) + 1 /\ nextItem = ev.item
+      [] ev.ev = "Emit" -> \E i \in Loops : (PollMsg(i) \/ Check(i)) /\ Len(emitted') = Len(emitted) + 1 /\ nextItem = ev.item
       [] ev.ev = "ConsumerDone" -> \E i \in Loops : ConsumerDone(i)
       [] ev.ev = "Advance" -> TraceAdvance(ev.now)
       [] ev.ev = "ObsStopped" -> stopped = ev.stopped /\ Same
       [] ev.ev = "End" -> Same
       [] OTHER -> FALSE
 
-Silent == \E i \in Loops : Begin(i) \/ (Check(i) /\ emitted' = emitted) \/ EmitReturn(i) \/ Wake(i)
+Silent == \E i \in Loops : Begin(i) \/ (Check(i) /\ emitted' = emitted) \/ PollNone(i) \/ EmitReturn(i) \/ Wake(i)
 
 TraceNext ==
     \/ /\ l <= Len(T) /\ Event(T[l])
